@@ -30,7 +30,11 @@ def run(ctx):
     p = ctx.p
     typer = typer_for(ctx)
     pur = Purity(p, typer)
-    funcs = [f for f in p.all_funcs if f.module.relpath.startswith("anytree/iterators/")]
+    # entry points of iteration: every member of the iterator classes (what they call is followed transitively by the
+    # effect analysis); an unrelated helper that merely lives in these modules is not part of iterating
+    base_ = p.cls("AbstractIter")
+    funcs = [f for f in p.all_funcs if f.module.relpath.startswith("anytree/iterators/")
+             and (f.cls is not None and (f.cls is base_ or f.cls.is_subclass_of(base_)) or (f.outer is not None and f.outer.cls is not None))]
     if len(funcs) < 12:
         raise AnalysisError("only %d functions found under anytree/iterators/" % len(funcs))
     write_funcs = {s[0] for s in link_write_sites(p)}
